@@ -1328,6 +1328,15 @@ impl<'a> Session<'a> {
                         let tx = &mut self.tx;
                         g!(tx.add_json_metadatum(&bn(*label), json));
                     }
+                    MetaSpec::Empty(kind) => match kind % 3 {
+                        0 => self.tx.set_metadata(&csl::GeneralTransactionMetadata::new()),
+                        1 => self.tx.set_auxiliary_data(&csl::AuxiliaryData::new()),
+                        _ => {
+                            let mut aux = csl::AuxiliaryData::new();
+                            aux.set_native_scripts(&csl::NativeScripts::new());
+                            self.tx.set_auxiliary_data(&aux);
+                        }
+                    },
                     MetaSpec::AuxScripts { native, plutus, prefer_alonzo } => {
                         need!(native.iter().chain(plutus.iter()).all(|s| self.script_ok(*s)));
                         let mut aux = self.tx.get_auxiliary_data().unwrap_or_else(csl::AuxiliaryData::new);
